@@ -72,7 +72,7 @@ Proof. reflexivity. Qed.
 Lemma grant_rules_in_operation_order : parser_grant_rules_sorted = true.
 Proof. reflexivity. Qed.
 
-(* source anchors of four repairs whose subject lies outside the C17 fragment (texts only; the claims
+(* source anchors of repairs whose subject lies outside the C17 fragment (texts only; the claims
    themselves are observed by the harness, not proved): a ROLE outside a workspace is an error
    (C16-F3, 7ddd85b13), the missing view intent of a job is reported without touching the absent
    projector (C16-F4, a6c74ddce), field sets that include themselves are an error (C16-F5, f76fc3ec8),
@@ -84,6 +84,12 @@ Proof. reflexivity. Qed.
 Lemma field_set_cycles_checked : parser_field_set_cycles_checked = true.
 Proof. reflexivity. Qed.
 Lemma grants_in_package_path_order : parser_grants_in_package_path_order = true.
+Proof. reflexivity. Qed.
+(* two more: the analyser's field lookup has the field-set cycle guard too (C16-F9, 87e6dec40), and the
+   refusal of a container field of the wrong family carries the field's position (C16-F10, 70f4f5752) *)
+Lemma field_lookup_cycles_checked : parser_field_lookup_cycles_checked = true.
+Proof. reflexivity. Qed.
+Lemma container_kind_error_positioned : parser_container_kind_error_positioned = true.
 Proof. reflexivity. Qed.
 
 (* the headline: the compiler model never panics, on any schema (no guard, not even wf) *)
